@@ -201,7 +201,8 @@ def run_ord(params, prefix):
 
 # ---------------------------------------------------------------- (write)
 def write_case(args):
-    ti, ci, ha, legacy, shuffle, chunk_len = args
+    ti, ci, ha, legacy, shuffle, chunk_len = args[:6]
+    chunkless = len(args) > 6 and args[6]
     sc = H.worker_scratch()
     root = sc.sub()
     tree = TREES[ti]
@@ -224,8 +225,9 @@ def write_case(args):
     w = F.Writer(cfg, pw, rnd=rnd)
     older = {p: (d + b'-old') for p, d in list(files.items())[:1]}
     w.add_snapshot(older, '2023-12-31 23:59:59', chunk_len=chunk_len, legacy_metadata=legacy)
+    # an empty file may be recorded as an empty range of some chunk or with no chunk entries at all
     w.add_snapshot(files, '2024-01-01 00:00:00.000001', note='n', chunk_len=chunk_len, legacy_metadata=legacy,
-                   shuffle_chunks=shuffle)
+                   shuffle_chunks=shuffle, chunkless_empty=chunkless)
     st = W.Store(w.o)
     user = W.User('u', pw, w.keyfile) if ci else None
     target = root / 'out'
@@ -269,7 +271,7 @@ def replay(case):
     def tup(x):
         return tuple(tup(y) if isinstance(y, list) else y for y in x) if isinstance(x, list) else x
     args = tup(case['args'])
-    fn = write_case if len(args) == 6 else read_case
+    fn = write_case if (len(args) in (6, 7) and isinstance(args[3], bool)) else read_case
     if fn is read_case:
         args = args[:6] + (W.MemBackend,)
     n, vs = fn(args)
@@ -316,6 +318,8 @@ def main():
                     for legacy in (False, True):
                         for shuffle in (False, True):
                             wcases.append((ti, ci, ha, legacy, shuffle, 8 if not shuffle else 5))
+                            if any(len(d) == 0 for d in TREES[ti].values()):
+                                wcases.append((ti, ci, ha, legacy, shuffle, 8 if not shuffle else 5, True))
         nw = 0
         for k, vs in common.pmap(write_case, common.shuffled(wcases, 'w'), ordered=False, chunksize=4):
             nw += k
